@@ -341,6 +341,21 @@ func Equal(p1, p2 Ptr) (bool, error) {
 		if l1.Len() != l2.Len() {
 			return false, nil
 		}
+		if b1, b2 := l1.flags&isBitList != 0, l2.flags&isBitList != 0; b1 != b2 {
+			// A bit list has no struct view: it only equals another bit list.
+			return false, nil
+		} else if b1 {
+			// Element size is zero for bit lists: compare the bits, not 0 bytes.
+			sz := bitListSize(l1.length)
+			d1, d2 := l1.seg.slice(l1.off, sz), l2.seg.slice(l2.off, sz)
+			if rem := uint(l1.length % 8); rem != 0 {
+				if (d1[sz-1]^d2[sz-1])&(1<<rem-1) != 0 {
+					return false, nil
+				}
+				d1, d2 = d1[:sz-1], d2[:sz-1]
+			}
+			return bytes.Equal(d1, d2), nil
+		}
 		if l1.flags&isCompositeList == 0 && l2.flags&isCompositeList == 0 && l1.size != l2.size {
 			return false, nil
 		}
